@@ -165,7 +165,9 @@ def case_strategy(draw):
     if special == 0:
         # linking length exactly 0: positions given more than once (bit-identical coordinates) are 0 apart and belong together
         k = draw(st.integers(1, 6))
-        base = [(G._wrap(180.0 * (1 + draw(G.unitf))), 89.0 * draw(G.unitf)) for _ in range(k)]
+        # (within a patch of two degrees: with the default chunk size of 0.1 deg an all-sky spread would mean millions of chunks)
+        c_ = (180.0 * (1 + draw(G.unitf)), 80.0 * draw(G.unitf))
+        base = [(G._wrap(c_[0] + draw(G.unitf)), G._clipdec(c_[1] + draw(G.unitf))) for _ in range(k)]
         reps = [base[draw(st.integers(0, k - 1))] for _ in range(draw(st.integers(1, 8)))]
         allp = list(draw(st.permutations(base + reps)))
         return dict(family='duplicates-L0', ra=[p[0] for p in allp], dec=[p[1] for p in allp], L=0.0, chunksize=None)
